@@ -59,6 +59,9 @@ func (items OrderSchemaItems) Less(i, j int) (ret bool) {
 					ret = reflect.ValueOf(ii).String() < reflect.ValueOf(ij).String()
 				}
 			}()
+			if ii == ij {
+				return items[i].Name < items[j].Name
+			}
 			return ii < ij
 		}
 		return true
